@@ -360,6 +360,15 @@ func reifyGetField(
 			return nil
 		}
 
+		// Arrays and slices without a setting are left alone, whatever methods
+		// their type has: the Initializer interface is not supported on them.
+		if k := fieldType.Kind(); k == reflect.Slice || k == reflect.Array {
+			if err := tryRecursiveValidate(to, opts.opts, opts.validators); err != nil {
+				return raiseValidation(cfg.ctx, cfg.metadata, name, err)
+			}
+			return nil
+		}
+
 		// Primitive types return early when it doesn't implement the Initializer interface.
 		if fieldType.Kind() != reflect.Struct && !hasInitDefaults(fieldType) {
 			if err := tryRecursiveValidate(to, opts.opts, opts.validators); err != nil {
